@@ -15,6 +15,7 @@ func checkC18(c *Check) {
 	c.notCover = "MIME well-formedness of the generated report, handling of non-ASCII diagnostic text (value-level, library)."
 	c18Alias(c)
 	c18Format(c)
+	c18Bounce(c)
 	r := c.need("R1", queueRel, "Queue", "emitDSN")
 	c.Rule("R1", "FinalRecipient is the original-recipient-map entry of the failed recipient, or the recipient itself on a miss", 1)
 	c.Rule("R2", "the report lists exactly the failed recipients it was given, with the stored last error of each", 2)
@@ -680,4 +681,151 @@ func c18Format(c *Check) {
 		}
 	}
 	c.Hold("R9", "emitDSN:format-flag", gen.Pos(), msg == "", msg)
+}
+
+
+// R10: the bounce transaction itself
+func c18Bounce(c *Check) {
+	c.Rule("R10", "emitDSN runs the bounce as a proper transaction: the pipeline is used only when configured; a failure to generate the id or the report stops it; after a successful Start the delivery is closed exactly once on every path – committed only after AddRcpt and Body succeeded, aborted otherwise – and never used after a failed Start", 5)
+	r := c.need("R10", queueRel, "Queue", "emitDSN")
+	if r == nil {
+		return
+	}
+	info := r.Info
+	isStart := func(info *types.Info, call *ast.CallExpr) bool {
+		return qname(callee(info, call)) == modulePkg+".DeliveryTarget.Start"
+	}
+	starts := r.Calls(isStart)
+	if len(starts) != 1 {
+		c.Fail("R10", "emitDSN:start", r.FI.Decl.Pos(), "undecided: expected exactly one Start of the bounce pipeline")
+		return
+	}
+	startPt := starts[0]
+	startCall := r.CallAt(startPt, isStart)
+	// (1) nil pipeline
+	wNil := r.F.World(func(atom ast.Expr) (bool, bool) {
+		if be, ok := ast.Unparen(atom).(*ast.BinaryExpr); ok && (be.Op == token.EQL || be.Op == token.NEQ) && isNilIdent(info, be.Y) && isField(info, be.X, "Queue", "dsnPipeline") {
+			return be.Op == token.EQL, true
+		}
+		return false, false
+	})
+	p1, f1 := r.F.Reach(Query{From: r.Entry(), Inclusive: true, Target: isPt(starts), AvoidEdge: wNil})
+	c.Hold("R10", "emitDSN:pipeline-configured", r.Pos(startPt), !f1, "the bounce pipeline is used although none is configured (nil dereference in the delivery goroutine): "+r.F.Describe(p1))
+	// (2) generation errors stop the bounce
+	gen := r.Calls(calling("~/framework/module.GenerateMsgID", "~/internal/dsn.GenerateDSN"))
+	msg := ""
+	if len(gen) < 2 {
+		msg = "undecided: expected the generation of the message id and of the report"
+	}
+	for _, gp := range gen {
+		call := r.CallAt(gp, calling("~/framework/module.GenerateMsgID", "~/internal/dsn.GenerateDSN"))
+		if found, w, decided := r.OnErr(gp, call, false, isPt(starts), nil); !decided {
+			msg = "the error of " + exprStr(call.Fun) + " is dropped"
+		} else if found {
+			msg = "after " + exprStr(call.Fun) + " failed the bounce is still submitted (without a valid id / with a truncated report): " + w
+		}
+	}
+	c.Hold("R10", "emitDSN:generation-errors-stop", r.FI.Decl.Pos(), msg == "", msg)
+	// (3) typestate of the bounce delivery
+	objs := map[types.Object]bool{}
+	if as, ok := startPt.Node().(*ast.AssignStmt); ok && len(as.Lhs) == 2 {
+		if o := objOf(info, as.Lhs[0]); o != nil {
+			objs[o] = true
+		}
+	}
+	errObj := errVarAssigned(info, startPt.Node(), startCall)
+	if len(objs) == 0 || errObj == nil {
+		c.Fail("R10", "emitDSN:delivery", r.Pos(startPt), "undecided: the result of Start is not kept")
+		return
+	}
+	on := func(names ...string) func(Pt) bool {
+		return func(pt Pt) bool {
+			for _, call := range callsAt(pt.Node()) {
+				m := callOn(info, call, objs)
+				for _, n := range names {
+					if m == n {
+						return true
+					}
+				}
+			}
+			// deferred closures run at exit: a defer statement is not the call
+			return false
+		}
+	}
+	anyOn := func(pt Pt) bool {
+		if _, isDefer := pt.Node().(*ast.DeferStmt); isDefer {
+			return false
+		}
+		for _, call := range callsAt(pt.Node()) {
+			if callOn(info, call, objs) != "" {
+				return true
+			}
+		}
+		return false
+	}
+	p2, f2 := r.F.ReachRefined(startPt, errObj, false, false, anyOn, nil)
+	c.Hold("R10", "emitDSN:no-use-after-failed-start", r.Pos(startPt), !f2, "the bounce delivery is used although Start failed (nil dereference): "+r.F.Describe(p2))
+	// Commit only after successful AddRcpt and Body: on the error edge of either, Commit is unreachable
+	commits := r.F.Find(func(n ast.Node) bool {
+		if _, isDefer := n.(*ast.DeferStmt); isDefer {
+			return false
+		}
+		return on("Commit")(ptOfNode(r.F, n))
+	})
+	msg = ""
+	if len(commits) == 0 {
+		msg = "the bounce is never committed (no failure report is ever delivered)"
+	}
+	for _, stage := range []string{"AddRcpt", "Body"} {
+		pts := r.F.Find(func(n ast.Node) bool {
+			if _, isDefer := n.(*ast.DeferStmt); isDefer {
+				return false
+			}
+			return on(stage)(ptOfNode(r.F, n))
+		})
+		if len(pts) == 0 {
+			msg = "the bounce transaction has no " + stage + " stage"
+		}
+		for _, sp := range pts {
+			var call *ast.CallExpr
+			for _, cc := range callsAt(sp.Node()) {
+				if callOn(info, cc, objs) == stage {
+					call = cc
+				}
+			}
+			eo := errVarAssigned(info, sp.Node(), call)
+			if eo == nil {
+				msg = "the error of the bounce's " + stage + " is dropped"
+				continue
+			}
+			if path, f := r.F.ReachRefined(sp, eo, false, false, isPt(commits), nil); f {
+				msg = "the bounce is committed although its " + stage + " failed: " + r.F.Describe(path)
+			}
+			// and on success the transaction goes on to the next stage (it is not given up)
+			next, nextName := commits, "Commit"
+			if stage == "AddRcpt" {
+				nextName = "Body"
+				next = r.F.Find(func(n ast.Node) bool {
+					if _, isDefer := n.(*ast.DeferStmt); isDefer {
+						return false
+					}
+					return on("Body")(ptOfNode(r.F, n))
+				})
+			}
+			if path, f := r.F.ReachRefined(sp, eo, true, false, r.F.IsExitPt, isPt(next)); f {
+				msg = "after a successful " + stage + " the bounce can end without reaching " + nextName + " (the failure report is silently dropped): " + r.F.Describe(path)
+			}
+		}
+	}
+	c.Hold("R10", "emitDSN:commit-after-success-only", r.FI.Decl.Pos(), msg == "", msg)
+	// every failure after Start ends in Abort: directly, or through the deferred clean-up that tests the shared error
+	// variable (the defer is registered after Start succeeded and aborts when err != nil)
+	aborts := 0
+	ast.Inspect(r.FI.Decl.Body, func(n ast.Node) bool {
+		if call, ok := n.(*ast.CallExpr); ok && callOn(info, call, objs) == "Abort" {
+			aborts++
+		}
+		return true
+	})
+	c.Hold("R10", "emitDSN:abort-exists", r.FI.Decl.Pos(), aborts >= 1, "a bounce transaction that fails after Start is never aborted (the downstream delivery stays open)")
 }
